@@ -4,14 +4,30 @@ import os, sys, random, tempfile, shutil, itertools, json, math, contextlib, io
 _SCRATCH = None
 
 
+_SCRATCH_LOCK = __import__('threading').Lock()
+_SCRATCH_ALL = []
+
+
 def scratch_root():
     """per-process scratch directory outside /repo and /verif, removed at exit"""
     global _SCRATCH
-    if _SCRATCH is None or not os.path.isdir(_SCRATCH):
-        _SCRATCH = tempfile.mkdtemp(prefix='xyzv-')
-        import atexit
-        atexit.register(lambda: shutil.rmtree(_SCRATCH, ignore_errors=True))
-    return _SCRATCH
+    with _SCRATCH_LOCK:
+        if _SCRATCH is None or not os.path.isdir(_SCRATCH):
+            _SCRATCH = tempfile.mkdtemp(prefix='xyzv-')
+            _SCRATCH_ALL.append(_SCRATCH)
+            import atexit
+            atexit.register(lambda d=_SCRATCH: shutil.rmtree(d, ignore_errors=True))
+        return _SCRATCH
+
+
+def cleanup_scratch():
+    """remove this process's scratch directory now (the entry script leaves through os._exit, which skips atexit)"""
+    global _SCRATCH
+    with _SCRATCH_LOCK:
+        for d in _SCRATCH_ALL:
+            shutil.rmtree(d, ignore_errors=True)
+        del _SCRATCH_ALL[:]
+        _SCRATCH = None
 
 
 def fresh_dir(prefix='c'):
